@@ -271,7 +271,7 @@ func VerifC03Agent() {
 	}
 	declared := rt.Int("ndeclaredTrailers", 0, rt.Param("trailers", 2))
 	late := rt.Int("nlateTrailers", 0, 1)
-	tnames := []string{"X-Checksum", "Grpc-Status", []string{"X-Late", "Trace-Id", "Te-Late"}[rt.Choice("lateName", 3)]}
+	tnames := []string{"X-Checksum", "Grpc-Status", []string{"Trace-Id", "X-Late", "Te-Late"}[rt.Choice("lateName", rt.Param("lateNames", 1))]}
 	interim := rt.Param("interim", 0) == 1 && rt.Bool("interim103")
 	rt.Known("C03-trailer-race", declared+late > 0)
 
@@ -326,17 +326,19 @@ func VerifC03Agent() {
 			}
 		}
 	}
-	for k := range up.Header {
-		rt.Assert(!vIsHopName(k), "C03.no-hop-by-hop-field-is-forwarded")
-		_, sent := hdr[k]
-		rt.Assert(sent, "C03.no-header-is-invented")
-	}
 	for k, v := range wantTrailer {
 		gv := up.Trailer[k]
 		rt.Assert(len(gv) == 1 && len(v) == 1 && gv[0] == v[0], "C03.trailer-values-are-delivered-as-trailers")
 	}
 	if declared+late > 0 {
 		rt.Cover("C03.trailers-checked")
+	}
+	for k := range up.Header {
+		rt.Assert(!vIsHopName(k), "C03.no-hop-by-hop-field-is-forwarded")
+	}
+	for k := range up.Header {
+		_, sent := hdr[k]
+		rt.Assert(sent, "C03.no-header-is-invented")
 	}
 	if len(chunks) == 1 && len(chunks[0]) == 1 {
 		rt.Cover("C03.one-byte-first-write")
